@@ -35,6 +35,12 @@ fn main() {
         }
         return;
     }
+    if args[0] == "merge" {
+        if args.len() != 4 {
+            usage();
+        }
+        std::process::exit(runner::merge_evidence(&args[1], &args[2], &args[3]));
+    }
     let id = args[0].clone();
     let mut tier = match std::env::var("VERIF_TIER").as_deref() {
         Ok("thorough") => Tier::Thorough,
@@ -43,6 +49,7 @@ fn main() {
     let mut replay = None;
     let mut part = None;
     let mut scale = 1.0f64;
+    let mut evidence_out: Option<String> = None;
     let mut i = 1;
     while i < args.len() {
         match args[i].as_str() {
@@ -61,6 +68,10 @@ fn main() {
             "--part" => {
                 i += 1;
                 part = args.get(i).cloned();
+            }
+            "--evidence-out" => {
+                i += 1;
+                evidence_out = args.get(i).cloned();
             }
             "--scale" => {
                 i += 1;
@@ -82,7 +93,7 @@ fn main() {
     let ctx = Ctx { tier, seed, replay: false };
     let code = match replay {
         Some(path) => runner::replay(def, &path, &ctx),
-        None => runner::run_property(def, &ctx, part.as_deref(), scale),
+        None => runner::run_property(def, &ctx, part.as_deref(), scale, evidence_out.as_deref()),
     };
     std::process::exit(code);
 }
